@@ -35,6 +35,7 @@ def run(m: Model, r: Report, tier: str) -> None:
     r.rule("R4", "the DB handler is disconnected only by its owner (_db_finish_run_meta), after completing the run meta", floor=3)
     r.rule("R5", "every normal return after acquiring the lock passes the release", floor=1)
     r.rule("R6", "AsyncScript.run: teardown runs on every exit of main, and only after setup completed", floor=2)
+    r.rule("R8", "the post-hook sees this run's exit code and META: the run-specific variables are set after (and never overridden by) the inherited environment", floor=2)
     r.rule("R7", "META.json / run_meta writer keys cover what the rerunner reads; config is the full JSON dump of the model", floor=3)
 
     ep = m.require_function(f"{BASE}.BaseCommand.entry_point")
@@ -137,6 +138,14 @@ def run(m: Model, r: Report, tier: str) -> None:
     r.check(seq == sorted(seq) and idx.get("exit_code") is not None and idx.get("db_finish") is not None and idx["exit_code"] < idx["db_finish"]
             and (idx.get("end_time") is None or idx["end_time"] < idx["db_finish"]), "R2", f"{ep.qualname}#finally:order",
             f"bookkeeping order in finally is {idx}; the DB completion and META.json read run_meta.exit_code/end_time, which must be set first", loc=ep.loc)
+    rz = m.require_function("gallia.log.remove_zst_log_handler")
+    gz = CFG(rz.node)
+    hpar = rz.params()[1] if len(rz.params()) > 1 else "handler"
+    closes = {n.id for n in gz.nodes.values() if n.kind == "stmt" and n.ast is not None and f"{hpar}.close()" in ast.unparse(n.ast)}
+    okz, pz = gz.must_pass(gz.entry, closes, {gz.exit_return}) if closes else (False, [])
+    r.check(okz, "R2", f"{rz.qualname}#always-closes",
+            "remove_zst_log_handler can return without closing the handler: the queue listener keeps running and the zstd frame of log.json.zst is never "
+            "ended (unreadable / truncated log): " + " -> ".join(repr(gz.nodes[p_]) for p_ in pz[-3:]), loc=rz.loc)
     # the DB completion takes the exit code from run_meta
     fin = m.require_function(f"{BASE}.BaseCommand._db_finish_run_meta")
     calls = [n for n in ast.walk(fin.node) if isinstance(n, ast.Call) and isinstance(n.func, ast.Attribute) and n.func.attr == "complete_run_meta"]
@@ -169,6 +178,38 @@ def run(m: Model, r: Report, tier: str) -> None:
     r.check(not bad_specs, "R3", "gallia#format-specs",
             f"format spec starting with '!' (a conversion written as a spec; raises at run time, here inside error handlers): {bad_specs}",
             loc=bad_specs[0].split(" ")[0] if bad_specs else "")
+
+    # ---------------------------------------------------------------- R8
+    gh = CFG(rh.node)
+    env_arg = [k.value for n in ast.walk(rh.node) if isinstance(n, ast.Call) and ast.unparse(n.func) in ("run", "subprocess.run") for k in n.keywords if k.arg == "env"]
+    if len(env_arg) != 1 or not isinstance(env_arg[0], ast.Name):
+        raise AnalysisError(f"{rh.qualname}: run(..., env=<name>) not found")
+    EV = env_arg[0].id
+    run_nodes = {n.id for n in gh.nodes.values() if n.kind == "stmt" and n.ast is not None and any(isinstance(x, ast.Call) and ast.unparse(x.func) in ("run", "subprocess.run") for x in ast.walk(n.ast))}
+    for key, src in (("GALLIA_EXIT_CODE", "str(exit_code)"), ("GALLIA_META", "self.run_meta.json()")):
+        sets = [n for n in gh.nodes.values() if n.kind == "stmt" and isinstance(n.ast, ast.Assign) and isinstance(n.ast.targets[0], ast.Subscript)
+                and ast.unparse(n.ast.targets[0].value) == EV and isinstance(n.ast.targets[0].slice, ast.Constant) and n.ast.targets[0].slice.value == key]
+        r.check(len(sets) == 1 and ast.unparse(sets[0].ast.value) == src, "R8", f"{rh.qualname}#{key}:value",
+                f"{key} is set {len(sets)} time(s)" + (f" to `{ast.unparse(sets[0].ast.value)}`" if sets else "") + f"; documented: {src}", loc=rh.loc)
+        for sn in sets:
+            after = set()
+            for b, k in gh.succ[sn.id]:
+                if k == "n":
+                    after |= gh.reachable_from(b, edge_kinds=("n",)) | {b}
+            overriders = []
+            for nid in after:
+                n = gh.nodes[nid]
+                if n.ast is None or n.kind != "stmt" or not any(rn in gh.reachable_from(nid, edge_kinds=("n",)) | {nid} for rn in run_nodes) or nid in run_nodes:
+                    continue
+                a = n.ast
+                writes_env = (isinstance(a, ast.Assign) and ast.unparse(a.targets[0]) == EV) or (isinstance(a, ast.AugAssign) and ast.unparse(a.target) == EV) or \
+                    (isinstance(a, ast.Expr) and isinstance(a.value, ast.Call) and isinstance(a.value.func, ast.Attribute) and ast.unparse(a.value.func.value) == EV
+                     and a.value.func.attr in ("update", "clear", "pop", "setdefault"))
+                if writes_env and ("os.environ" in ast.unparse(a) or "environ" in ast.unparse(a) or not isinstance(a, ast.Expr)):
+                    overriders.append(f"line {a.lineno}: {ast.unparse(a)[:50]}")
+            r.check(not overriders, "R8", f"{rh.qualname}#{key}:not-overridden",
+                    f"after {key} is set the hook environment is rebuilt / merged again ({overriders}): a value inherited from the process environment "
+                    "(e.g. gallia started from another run's post-hook) replaces this run's value", loc=rh.loc)
 
     # ---------------------------------------------------------------- R4
     owners = {f"{BASE}.BaseCommand._db_finish_run_meta"}
